@@ -785,6 +785,171 @@ def second_session_case(ctx, workdir: str, transport_kind: str, k: int) -> None:
         ctx.violation(key, what, case)
 
 
+def multi_loop_sessions_case(ctx, workdir: str, sessions: int, k: int, engine: str) -> None:
+    """The same Gateway object entered again under a NEW event loop (an application whose retry loop calls
+    asyncio.run(main(gateway)) again after a lost connection).  Each session stays long enough for the saver to park,
+    observes one periodic save and leaves; anything the library keeps on the object between sessions (events, locks,
+    queues created once) is waited on under both loops."""
+    from aiomysensors.gateway import Config, Gateway
+    from aiomysensors.model.node import Node
+
+    path = os.path.join(workdir, "multiloop.json")
+    prepare_file(path, "missing")
+    case = {"engine": engine, "multi_loop_sessions": sessions, "k": k}
+    gateway = Gateway(ScriptedTransport(), Config(persistence_file=path))
+    problems: list[tuple[str, str]] = []
+
+    async def session(index: int) -> None:
+        before = set(asyncio.all_tasks())
+        gateway.nodes[30 + index] = Node(30 + index, 17, "2.0", sketch_name=f"before session {index}")
+        try:
+            async with gateway:
+                for _ in range(k):
+                    await asyncio.sleep(0)
+                await asyncio.sleep(1 if engine == "vloop" else 0.01)
+                status, disk = registry_on_disk(path)
+                if status != "ok" or disk != typed(snap(gateway.nodes)):
+                    problems.append(("no-save-after-entry", f"session #{index} (own event loop): the registry is not on disk "
+                                                            f"after entry (file {status})"))
+                gateway.nodes[60 + index] = Node(60 + index, 17, "2.0", heartbeat=index)
+                if engine == "vloop":
+                    await asyncio.sleep(SAVE_BOUND + 5)
+                    status, disk = registry_on_disk(path)
+                    if status != "ok" or disk != typed(snap(gateway.nodes)):
+                        problems.append(("periodic-save-too-late", f"session #{index} (own event loop): a change is not on "
+                                                                   f"disk {SAVE_BOUND + 5} virtual seconds later"))
+                gateway.nodes[90 + index] = Node(90 + index, 18, "2.1")
+        except Exception as exc:  # noqa: BLE001
+            problems.append(("exit-raised", f"session #{index} under its own event loop: the context raised "
+                                            f"{type(exc).__name__}: {exc!s:.100}"))
+        await asyncio.sleep(0)
+        left = [t for t in asyncio.all_tasks() if t not in before and t is not asyncio.current_task() and not t.done()]
+        if left:
+            problems.append(("task-left-after-exit", f"session #{index}: {[repr(t)[:100] for t in left]}"))
+            for t in left:
+                t.cancel()
+        status, disk = registry_on_disk(path)
+        if status != "ok" or disk != typed(snap(gateway.nodes)):
+            problems.append(("no-final-save", f"session #{index} (own event loop): file after exit is not the final registry "
+                                              f"(file {status})"))
+
+    for index in range(sessions):
+        if engine == "vloop":
+            result, _loop = run_virtual(lambda index=index: session(index))
+            if isinstance(result, LogicalDeadlock):
+                problems.append(("context-deadlock", f"session #{index}: logical deadlock"))
+            elif isinstance(result, BaseException):
+                problems.append(("second-session-raised", f"session #{index}: {type(result).__name__}: {result!s:.80}"))
+        else:
+            loop = asyncio.new_event_loop()
+            try:
+                loop.run_until_complete(asyncio.wait_for(session(index), 60))
+            except asyncio.TimeoutError:
+                ctx.obs("real-case-watchdog")
+            finally:
+                loop.run_until_complete(loop.shutdown_default_executor())
+                loop.close()
+        if problems:
+            break
+    ctx.case(("multi-loop", sessions, k, engine), sample=case)
+    ctx.clause("session-under-new-event-loop", sessions - 1)
+    for key, what in problems[:3]:
+        ctx.violation(key, what, case)
+
+
+class LiveTransport(ScriptedTransport):
+    """Scripted lines arriving in real time (every read really suspends, so the saver and the thread pool run)."""
+
+    delay = 0.0005
+
+    async def read(self) -> str:
+        await asyncio.sleep(self.delay)
+        return await super().read()
+
+
+def live_traffic_case(ctx, workdir: str, n_nodes: int, n_children: int, seed: int) -> None:
+    """Real loop, real thread pool, whole-network registry: the file holds n_nodes x n_children, the context is entered
+    and presentations of NEW nodes and children keep arriving while the entry save / application saves of the big registry
+    are in progress.  Whatever runs in worker threads must not be disturbed by the registry changing on the loop thread."""
+    import random
+
+    from aiomysensors.gateway import Config, Gateway
+    from aiomysensors.persistence import Persistence
+
+    from ..harness import ScriptEnd
+    from .c13 import big_registry
+
+    rng = random.Random(seed)
+    path = os.path.join(workdir, "live.json")
+    prepare_file(path, "missing")
+    case = {"engine": "real", "live_traffic": [n_nodes, n_children], "seed": seed}
+    result: dict = {"problems": []}
+
+    async def scenario() -> None:
+        nodes = big_registry(rng, n_nodes, n_children, 2)
+        await Persistence(nodes, path).save()
+        transport = LiveTransport()
+        new_ids = [n for n in range(1, 255) if n not in nodes]
+        old_ids = sorted(nodes)
+        for i in range(400):
+            if i % 2 and new_ids:
+                transport.lines.append(f"{new_ids.pop()};255;0;0;17;2.0\n")
+            else:
+                node = rng.choice(old_ids)
+                free = [c for c in range(0, 255) if c not in nodes[node].children]
+                transport.lines.append(f"{node};{rng.choice(free)};0;0;6;arrives during a save\n")
+        gateway = Gateway(transport, Config(persistence_file=path))
+        gateway.protocol_version = "2.2"
+        before = set(asyncio.all_tasks())
+        observed = None
+        handled = 0
+        try:
+            async with gateway:
+                async def app_saves() -> None:
+                    for _ in range(3):
+                        await asyncio.sleep(0.03)
+                        await gateway.persistence.save()
+
+                saver = asyncio.ensure_future(app_saves())
+                try:
+                    async for _message in gateway.listen():
+                        handled += 1
+                except ScriptEnd:
+                    pass
+                await saver
+        except Exception as exc:  # noqa: BLE001
+            observed = exc
+        await asyncio.sleep(0.01)
+        left = [t for t in asyncio.all_tasks() if t not in before and t is not asyncio.current_task() and not t.done()]
+        result.update(observed=observed, handled=handled, left=[repr(t)[:120] for t in left],
+                      final=typed(snap(gateway.nodes)), size=len(gateway.nodes))
+        for t in left:
+            t.cancel()
+
+    loop = asyncio.new_event_loop()
+    try:
+        loop.run_until_complete(asyncio.wait_for(scenario(), 120))
+    except asyncio.TimeoutError:
+        ctx.obs("real-case-watchdog")
+        return
+    finally:
+        loop.run_until_complete(loop.shutdown_default_executor())
+        loop.close()
+    ctx.case(("live-traffic", n_nodes, n_children, seed), sample=case)
+    ctx.clause("live-traffic-during-saves")
+    ctx.obs("live-traffic-lines-handled", result["handled"])
+    if result["observed"] is not None:
+        exc = result["observed"]
+        ctx.violation("exit-raised", f"context with presentations arriving during saves of a {n_nodes}x{n_children} registry "
+                                     f"raised {type(exc).__name__}: {exc!s:.100}", case)
+    if result["left"]:
+        ctx.violation("task-left-after-exit", f"{result['left']}", case)
+    status, disk = registry_on_disk(path)
+    if status != "ok" or disk != result["final"]:
+        ctx.violation("no-final-save", f"after live traffic the file is not the final registry of {result['size']} nodes "
+                                       f"(file {status})", case)
+
+
 def cadence_case(ctx, workdir: str, hours: int, seed: int) -> None:
     from aiomysensors.gateway import Config, Gateway
     from aiomysensors.model.node import Child, Node
@@ -1025,6 +1190,10 @@ def run_case(ctx, case: dict) -> None:
             cancelled_exit_case(ctx, workdir, case["transport"], case["k"], case["cancelled_exit"], case["file"])
         elif "builtin_connect_failure" in case:
             builtin_connect_failure_case(ctx, workdir, case["builtin_connect_failure"])
+        elif "multi_loop_sessions" in case:
+            multi_loop_sessions_case(ctx, workdir, case["multi_loop_sessions"], case["k"], case["engine"])
+        elif "live_traffic" in case:
+            live_traffic_case(ctx, workdir, case["live_traffic"][0], case["live_traffic"][1], case["seed"])
         elif case.get("second_session"):
             second_session_case(ctx, workdir, case["transport"], case["k"])
         elif "cadence_hours" in case:
@@ -1090,6 +1259,13 @@ def run(ctx) -> None:
                 for k in (0, 1, 3, 8, 20):
                     if ctx.mine():
                         second_session_case(ctx, workdir, transport, k)
+            for i, (engine, sessions, k) in enumerate([("vloop", 2, 0), ("vloop", 3, 2), ("real", 2, 1), ("vloop", 2, 7),
+                                                       ("real", 3, 0), ("vloop", 4, 1)]):
+                if ctx.mine(i):
+                    multi_loop_sessions_case(ctx, workdir, sessions, k, engine)
+            for i, (n, c) in enumerate([(150, 60), (60, 20)] + ([(200, 100), (250, 30)] if not ctx.quick else [])):
+                if ctx.mine(i + 3):
+                    live_traffic_case(ctx, workdir, n, c, ctx.seed * 100 + i)
             hours = ctx.pick(10, 100)
             if ctx.shard_index < 4:
                 cadence_case(ctx, workdir, hours, ctx.seed * 100 + ctx.shard_index)
